@@ -51,21 +51,45 @@ func init() {
 			}
 			return term.And(cs...)
 		}
+		// time.Now reads the symbolic clock. The clock moves (to an arbitrary later instant) only when a
+		// timer fires, in time.Sleep and at vrt.Advance() calls of the harness.
 		I["time.Now"] = func(e *Engine, st *State, th *Thread, fn *ssa.Function, a []Value, in *ssa.Call) Value {
-			e.nclock++
-			v := term.Var(fmt.Sprintf("clock!%d", e.nclock), term.BV(64))
-			last := st.Clock
-			if last == nil {
-				last = term.BVC(64, 0)
+			now := st.Clock
+			if now == nil {
+				now = term.BVC(64, 0)
 			}
-			// monotone, bounded clock (nanoseconds since the start of the scenario)
-			st.assume(term.BVCmp(term.OpSLe, last, v))
-			st.assume(term.BVCmp(term.OpSLe, v, term.BVBin(term.OpAdd, last, term.BVC(64, 1<<40))))
-			st.Clock = v
-			// time.Time{wall: hasMonotonic, ext: v, loc: nil}
-			return Struct{term.BVC(64, 1<<63), v, Ptr{}}
+			// time.Time{wall: hasMonotonic, ext: now, loc: nil}
+			return Struct{term.BVC(64, 1<<63), now, Ptr{}}
+		}
+		I[vrtPath+".Advance"] = func(e *Engine, st *State, th *Thread, fn *ssa.Function, a []Value, in *ssa.Call) Value {
+			e.advanceClock(st, nil)
+			return nil
+		}
+		I["time.Sleep"] = func(e *Engine, st *State, th *Thread, fn *ssa.Function, a []Value, in *ssa.Call) Value {
+			now := st.Clock
+			if now == nil {
+				now = term.BVC(64, 0)
+			}
+			e.advanceClock(st, term.BVBin(term.OpAdd, now, a[0].(*term.Term)))
+			return nil
 		}
 	})
 }
 
 var moreIntrinsics []func(e *Engine)
+
+// advanceClock moves the symbolic clock to a fresh instant >= the current one (and >= atLeast).
+func (e *Engine) advanceClock(st *State, atLeast *term.Term) {
+	e.nclock++
+	v := term.Var(fmt.Sprintf("clock!%d", e.nclock), term.BV(64))
+	last := st.Clock
+	if last == nil {
+		last = term.BVC(64, 0)
+	}
+	st.assume(term.BVCmp(term.OpULe, last, v))
+	if atLeast != nil {
+		st.assume(term.BVCmp(term.OpULe, atLeast, v))
+	}
+	st.assume(term.BVCmp(term.OpULe, v, term.BVC(64, 1<<50)))
+	st.Clock = v
+}
